@@ -325,3 +325,68 @@ theorem removeComponents_values [Inhabited S] (sc : Scalar S) {isZero : S → Bo
 end values
 
 end PoseVerif.Props.C11
+
+/-! ### `reduce_holistic` -/
+
+namespace PoseVerif.Props.C11
+open PoseVerif
+
+theorem isInfix_iff (n h : List Char) : isInfix n h = true ↔ ∃ pre post, h = pre ++ n ++ post := by
+  induction h with
+  | nil =>
+    simp only [isInfix, List.isPrefixOf_iff_prefix]
+    constructor
+    · rintro ⟨post, hp⟩
+      exact ⟨[], post, by simpa using hp.symm⟩
+    · rintro ⟨pre, post, hp⟩
+      have : n = [] := by
+        have := congrArg List.length hp
+        simp at this
+        exact List.eq_nil_of_length_eq_zero (by omega)
+      subst this
+      exact ⟨[], rfl⟩
+  | cons c cs ih =>
+    simp only [isInfix, Bool.or_eq_true, List.isPrefixOf_iff_prefix, ih]
+    constructor
+    · rintro (⟨post, hp⟩ | ⟨pre, post, rfl⟩)
+      · exact ⟨[], post, by simpa using hp.symm⟩
+      · exact ⟨c :: pre, post, by simp⟩
+    · rintro ⟨pre, post, hp⟩
+      cases pre with
+      | nil => exact Or.inl ⟨post, by simpa using hp.symm⟩
+      | cons d pre =>
+        simp only [List.cons_append, List.cons.injEq] at hp
+        exact Or.inr ⟨pre, post, hp.2⟩
+
+/-- "the points it names": a body point is dropped exactly when one of the ignore names occurs in it; the others are kept, in source order. -/
+theorem reduceKeep_iff (ignore points : List String) (p : String) :
+    p ∈ reduceKeep ignore points ↔ p ∈ points ∧ ∀ i ∈ ignore, ¬ ∃ pre post, p.toList = pre ++ i.toList ++ post := by
+  unfold reduceKeep
+  simp only [List.mem_filter, List.all_eq_true, Bool.not_eq_true', ← Bool.not_eq_true, isInfix_iff]
+
+theorem reduceKeep_sublist (ignore points : List String) : (reduceKeep ignore points).Sublist points := List.filter_sublist
+
+/-- Holistic reduction is a selection: whatever the selection theorems (`select_component`, `select_limbs_names`, `getComponents_values`) say about
+    `get_components` with this request holds of it — in particular nothing but the named points is dropped, and the kept ones carry their source values. -/
+theorem reduceHolistic_is_selection (ignore contours : List String) (comps : List Comp) (body : Comp) (hb : comps.find? (·.name == "POSE_LANDMARKS") = some body) :
+    reduceHolistic ignore contours comps =
+      getComponents comps ((comps.filter (·.name != "POSE_WORLD_LANDMARKS")).map (·.name)) (some [("FACE_LANDMARKS", contours), ("POSE_LANDMARKS", reduceKeep ignore body.points)]) := by
+  simp [reduceHolistic, hb]
+
+/-- without a body component the helper raises -/
+theorem reduceHolistic_no_body (ignore contours : List String) (comps : List Comp) (hb : comps.find? (·.name == "POSE_LANDMARKS") = none) :
+    reduceHolistic ignore contours comps = none := by
+  simp [reduceHolistic, hb]
+
+def demoHol : List Comp :=
+  [{ name := "POSE_LANDMARKS", format := "XYZC", points := ["NOSE", "LEFT_SHOULDER", "LEFT_HIP", "LEFT_KNEE", "RIGHT_WRIST"], limbs := [(1, 2), (2, 3)], colors := [(1, 2, 3)] },
+   { name := "FACE_LANDMARKS", format := "XYZC", points := ["0", "1", "7"], limbs := [], colors := [] },
+   { name := "LEFT_HAND_LANDMARKS", format := "XYZC", points := ["WRIST", "THUMB_TIP"], limbs := [(0, 1)], colors := [] },
+   { name := "POSE_WORLD_LANDMARKS", format := "XYZC", points := ["NOSE"], limbs := [], colors := [] }]
+
+example : (reduceHolistic ["NOSE", "KNEE"] ["0", "7"] demoHol).map (fun r => (r.1.map (·.name), r.1.map (·.points))) =
+    some (["POSE_LANDMARKS", "FACE_LANDMARKS", "LEFT_HAND_LANDMARKS"], [["LEFT_SHOULDER", "LEFT_HIP", "RIGHT_WRIST"], ["0", "7"], ["WRIST", "THUMB_TIP"]]) := by decide +kernel
+example : (reduceHolistic ["NOSE", "KNEE"] ["0", "7"] demoHol).map (fun r => (r.1.map (·.limbs), r.2)) = some ([[(0, 1)], [], [(0, 1)]], [1, 2, 4, 5, 7, 8, 9]) := by decide +kernel
+example : reduceHolistic ["NOSE"] ["0", "99"] demoHol = none := by decide +kernel          -- a contour point the face component lacks: ValueError
+
+end PoseVerif.Props.C11
